@@ -430,3 +430,58 @@ def spec_fixed_step(model, T, dt, dts, solver="euler", y0=None, params=None, inp
             chains = {j: [a + dt / 2 * (b + c) for a, b, c in zip(chains[j], dch[j], dch2[j])] for j in chains}
     times = np.arange(rows) * (T / rows) if rows else np.zeros(0)
     return times, {k: np.array(v) for k, v in rec.items()}
+
+
+# ------------------------------------------------------------------ rendering to YAML templates
+def to_yaml_dict(model, style=0, prefix=""):
+    """MDL -> dictionary of YAML templates (operators, node templates, edge templates, circuits); returns (dict, top name)."""
+    out = {}
+    for name, op in model.get("ops", {}).items():
+        out[name] = dict(base="OperatorTemplate", equations=[eq_str(l, k, t, style) for l, k, t in op["eqs"]],
+                         variables={v: var_decl(vt, d) for v, (vt, d) in op["vars"].items()})
+    for name, op in model.get("edge_ops", {}).items():
+        out[name] = dict(base="OperatorTemplate", equations=[eq_str(l, k, t, style) for l, k, t in op["eqs"]],
+                         variables={v: var_decl(vt, d) for v, (vt, d) in op["vars"].items()})
+        out[f"et_{name}"] = dict(base="EdgeTemplate", operators=[name])
+    nodes = {}
+    for label, node in model.get("nodes", {}).items():
+        over = node.get("over", {})
+        key = f"{prefix}nt_{label}" if over else f"{prefix}nt_{'_'.join(node['ops'])}"
+        if key not in out:
+            if over:
+                opd = {o: {k.split("/")[1]: v for k, v in over.items() if k.split("/")[0] == o} for o in node["ops"]}
+                out[key] = dict(base="NodeTemplate", operators=opd)
+            else:
+                out[key] = dict(base="NodeTemplate", operators=list(node["ops"]))
+        nodes[label] = key
+    circuits = {}
+    for lab, sub in model.get("circuits", {}).items():
+        d2, top = to_yaml_dict(sub, style, prefix=f"{prefix}{lab}_")
+        out.update(d2)
+        circuits[lab] = top
+    edges = []
+    for e in model.get("edges", []):
+        attrs = {"weight": e["w"]}
+        if e.get("d") is not None:
+            attrs["delay"] = e["d"]
+        if e.get("s") is not None:
+            attrs["spread"] = e["s"]
+        edges.append([e["src"], e["tgt"], f"et_{e['tpl']}" if e.get("tpl") else None, attrs])
+    top = f"{prefix}net"
+    c = dict(base="CircuitTemplate", edges=edges)
+    if nodes:
+        c["nodes"] = nodes
+    if circuits:
+        c["circuits"] = circuits
+    out[top] = c
+    return out, top
+
+
+def write_yaml(model, path="mdl_yaml/m.yaml", style=0):
+    import os
+    from ruamel.yaml import YAML
+    d, top = to_yaml_dict(model, style)
+    os.makedirs(os.path.dirname(path), exist_ok=True)
+    with open(path, "w") as fh:
+        YAML().dump(d, fh)
+    return path[:-5] + "/" + top
